@@ -20,6 +20,17 @@ def main(tier, seed, replay=None):
         if state["done"]:
             return
         state["done"] = True
+        # std's DefaultHasher = the model's SipHash-1-3 with zero keys, on raw byte strings of every length around the 8-byte blocks
+        rng_ = random.Random(seed + 5)
+        hs = [bytes(rng_.randrange(256) for _ in range(n)) for n in list(range(0, 40)) * 5 + [63, 64, 65, 255, 256, 1000]]
+        har_, _o = build_harness()
+        a_ = run_lines([har_, "siphash"], [hexs(h) for h in hs])
+        m_ = run_lines([build_driver(), "siphash"], [hexs(h) for h in hs])
+        nb = sum(1 for x, y in zip(a_, m_) if x.strip() != y.strip())
+        if nb:
+            i_ = [i for i, (x, y) in enumerate(zip(a_, m_)) if x.strip() != y.strip()][0]
+            run.tie("correspondence SipHash-1-3 (std DefaultHasher vs Model/Hash.v)", {"input_hex": hexs(hs[i_]), "implementation": a_[i_], "model": m_[i_]})
+        run.coverage["siphash_cases"] = len(hs)
         import taskleg
         n2, out_ = build_n2_binary()
         if n2 is None:
